@@ -58,6 +58,7 @@ func runC14(w *World, r *Report) {
 	r.Rule("R-C14-2", "every exported query generator of tables/parsing returns text into which none of its string / []string / *url.URL parameters flows unsanitised", 8)
 
 	c14SanitizerShape(w, r)
+	c14TemplatesQuoteTheirNames(w, r)
 
 	pkgs := []*packages.Package{w.pkg("internal/server/tables"), w.pkg("internal/server/tables/scripting"), w.pkg("internal/server/tables/parsing")}
 	for _, p := range pkgs {
